@@ -368,10 +368,61 @@ func translate(held lockSet, site ssa.CallInstruction, callee *ssa.Function) loc
 			}
 		}
 	}
+	// lock helpers: the closure was created in P, handed to helper H = site.Parent() as an argument, and is called by H
+	// while H holds a lock rooted at one of its own parameters. If, at P's call of H, that parameter's actual is a value
+	// the closure also captures, the lock is the captured variable's: H.param.chain ≡ closure.freevar.chain.
+	type bridge struct {
+		param ssa.Value    // parameter of H
+		fv    ssa.Value    // free variable of the closure
+		pre   []*types.Var // fields between the captured variable and the actual
+	}
+	var bridges []bridge
+	if h := site.Parent(); len(callee.FreeVars) > 0 && callee.Parent() != nil && callee.Parent() != h && h != nil {
+		pfn := callee.Parent()
+		for _, r := range *ssa.Value(callee).Referrers() {
+			mc, ok := r.(*ssa.MakeClosure)
+			if !ok {
+				continue
+			}
+			allInstrs(pfn, func(i ssa.Instruction) {
+				cs2, ok := i.(ssa.CallInstruction)
+				if !ok || cs2.Common().StaticCallee() != h {
+					return
+				}
+				args2 := callArgs(cs2.Common())
+				passes := false
+				for _, a := range args2 {
+					if a == ssa.Value(mc) {
+						passes = true
+					}
+				}
+				if !passes || len(args2) != len(h.Params) {
+					return
+				}
+				for k, a := range args2 {
+					ra, ca := fieldChain(a)
+					for j, b := range mc.Bindings {
+						rb, cb := fieldChain(b)
+						if ra == rb && len(cb) == 0 && ra != nil {
+							bridges = append(bridges, bridge{h.Params[k], callee.FreeVars[j], ca})
+						}
+					}
+				}
+			})
+		}
+	}
 	for _, ent := range held {
 		if g, ok := ent.Path.Root.(*ssa.Global); ok {
 			out[ent.Path.Key()] = LockEnt{Path: LockPath{Root: g, Chain: ent.Path.Chain}, Excl: ent.Excl, Site: ent.Site}
 			continue
+		}
+		translated := false
+		for _, br := range bridges {
+			if ent.Path.Root == br.param {
+				np := LockPath{Root: br.fv, Chain: append(append([]*types.Var{}, br.pre...), ent.Path.Chain...)}
+				out[np.Key()] = LockEnt{Path: np, Excl: ent.Excl, Site: ent.Site}
+				translated = true
+			}
 		}
 		for i, a := range actuals {
 			ra, ca := fieldChain(a)
@@ -390,6 +441,15 @@ func translate(held lockSet, site ssa.CallInstruction, callee *ssa.Function) loc
 			}
 			np := LockPath{Root: formals[i], Chain: ent.Path.Chain[len(ca):]}
 			out[np.Key()] = LockEnt{Path: np, Excl: ent.Excl, Site: ent.Site}
+			translated = true
+		}
+		// a closure run by a lock helper that does not capture the lock's owner: keep the fact at class level
+		// (opaque root of the owner's type), so that class-based queries still see the helper's lock
+		if !translated && callee.Parent() != nil && callee.Parent() != site.Parent() && len(ent.Path.Chain) > 0 && ent.Path.Root != nil {
+			if _, isPtr := ent.Path.Root.Type().Underlying().(*types.Pointer); isPtr {
+				np := LockPath{Root: ssa.NewConst(nil, ent.Path.Root.Type()), Chain: ent.Path.Chain}
+				out[np.Key()] = LockEnt{Path: np, Excl: ent.Excl, Site: ent.Site}
+			}
 		}
 	}
 	return out
